@@ -527,5 +527,28 @@ fn generate(full: bool) -> String {
             g.case("derive-field-type-shapes", &format!("{}<'a>", name), &e, 3, &prelude);
         }
     }
+    // (iv-e) syntax the derive has to carry over: a default type parameter, a const generic, path-qualified field
+    // types, raw identifiers, attributes and doc comments on fields, restricted visibility, lifetime bounds
+    for k in &member_kinds {
+        for form in 0..6 {
+            let name = format!("S{}", sid);
+            sid += 1;
+            let mut e = Exp::default();
+            let mut own = String::new();
+            ty(&T::Leaf(K::Write, 0), &mut own, &mut e);
+            let mut member = String::new();
+            ty(&T::Leaf(*k, 1), &mut member, &mut e);
+            let q = |s: &str| s.replace("Read<", "::shred::Read<").replace("Write<", "::shred::Write<").replace("ReadExpect<", "shred::ReadExpect<").replace("R<", "crate::R<");
+            let (prelude, inst) = match form {
+                0 => (format!("#[derive(SystemData)]\n#[allow(dead_code)]\npub struct {n}<'a, T = R<7>> where T: shred::Resource + Default {{\n    pub own: {own},\n    pub m: {member},\n    pub d: PhantomData<T>,\n}}\n", n = name, own = own, member = member), format!("{}<'a>", name)),
+                1 => (format!("#[derive(SystemData)]\n#[allow(dead_code)]\npub struct {n}<'a, const N: usize> {{\n    pub own: {own},\n    pub m: {member},\n    pub d: PhantomData<[u8; N]>,\n}}\n", n = name, own = own, member = member), format!("{}<'a, 3>", name)),
+                2 => (format!("#[derive(SystemData)]\n#[allow(dead_code)]\npub struct {n}<'a> {{\n    pub own: {own},\n    pub m: {member},\n}}\n", n = name, own = q(&own), member = q(&member)), format!("{}<'a>", name)),
+                3 => (format!("#[derive(SystemData)]\n#[allow(dead_code)]\npub struct {n}<'a> {{\n    pub r#type: {own},\n    pub r#fn: {member},\n}}\n", n = name, own = own, member = member), format!("{}<'a>", name)),
+                4 => (format!("#[derive(SystemData)]\n#[allow(dead_code)]\npub struct {n}<'a> {{\n    /// documented\n    #[allow(unused)]\n    pub(crate) own: {own},\n    #[cfg(all())]\n    #[doc = \"the member\"]\n    m: {member},\n}}\n", n = name, own = own, member = member), format!("{}<'a>", name)),
+                _ => (format!("#[derive(SystemData)]\n#[allow(dead_code)]\npub struct {n}<'a, 'b: 'a> where 'a: 'a {{\n    pub own: {own},\n    pub m: {member},\n    pub p: PhantomData<&'b ()>,\n}}\n", n = name, own = own, member = member), format!("{}<'a, 'static>", name)),
+            };
+            g.case("derive-syntax-zoo", &inst, &e, 2, &prelude);
+        }
+    }
     format!("{}\npub static CASES: &[Case] = &[\n{}];\n", g.code, g.table)
 }
